@@ -270,6 +270,21 @@ Check C16_bin_literal_value_fixed :
 Print Assumptions C16_bin_literal_value_fixed.
 Print Assumptions closed_marker.
 
+(* the explicitly signed token +0x… / +0b… (a leading - is always a prefix negation and never reaches the arm) *)
+Theorem C16_plus_radix_literal_value_fixed :
+  forall sp body c cl v,
+    remove_char "_" body = String c cl ->
+    (radix_val 16 (String c cl) 0 = Some v -> literal_value_rf true sp ("+0x" ++ body) = Some (num_of_Z v)) /\
+    (radix_val 2 (String c cl) 0 = Some v -> literal_value_rf true sp ("+0b" ++ body) = Some (num_of_Z v)).
+Proof. exact plus_radix_literal_value_fixed. Qed.
+Check C16_plus_radix_literal_value_fixed :
+  forall sp body c cl v,
+    remove_char "_" body = String c cl ->
+    (radix_val 16 (String c cl) 0 = Some v -> literal_value_rf true sp ("+0x" ++ body) = Some (num_of_Z v)) /\
+    (radix_val 2 (String c cl) 0 = Some v -> literal_value_rf true sp ("+0b" ++ body) = Some (num_of_Z v)).
+Print Assumptions C16_plus_radix_literal_value_fixed.
+Print Assumptions closed_marker.
+
 (* the conversion routine itself, both radices, and the errors it keeps *)
 Theorem C16_parse_radix_digits_value :
   forall radix s v,
